@@ -66,10 +66,11 @@ type World struct {
 	assumed   map[string]bool // names of assume-ext / trusted things used
 	distinct  map[string][]string
 	arrOfFns  []string
+	weak      map[string]bool // assumptions that are rarely needed (typing axioms): dropped in a retry
 }
 
 func newWorld() *World {
-	w := &World{declared: map[string]bool{}, sorts: map[string]*Sort{}, fresh: map[string]int{}, assumed: map[string]bool{}}
+	w := &World{declared: map[string]bool{}, sorts: map[string]*Sort{}, fresh: map[string]int{}, assumed: map[string]bool{}, weak: map[string]bool{}}
 	w.qual = func(p *types.Package) string { return p.Name() }
 	w.sortDecls = append(w.sortDecls,
 		"(declare-sort Ref 0)",
